@@ -1,6 +1,7 @@
 import Driver.Common
 import Logrange.Model.TIndexId
 import Logrange.Model.TIndexSave
+import Logrange.Model.TIndexGuard
 /-! Model driver for C06 (partition identity and FROM selection). State: the tag index (`TIndexId.St`).
 
 * `reset` → `ok`
@@ -10,6 +11,9 @@ import Logrange.Model.TIndexSave
 * `visit <source>` → `model=<ok id*|rej> spec=<ok id*|rej>`  (ids sorted; spec = filter by the reference evaluator)
 * `eval <source> | <k> <v> …` → `model=<0|1|rej> spec=<0|1|rej>`                   (one tag set, stateless)
 * `like <pattern> <name>` → `1|0|bad`                                              (`path.Match`)
+* `reparses <text>` → `0|1|rej` (the canonical line of the parsed set reads back as the same set — the guard of proposed-fixes/F08r.diff);
+  when the regenerated fact `Generated.C06.reparseGuardBeforeLookup` is true, `goc`/`gocf` answer `unwritable` for a text the guard
+  refuses (`Props.C06Guard.guarded_step_decomp`)
 * `safe <text>` → `0|1` (the parsed set is Safe; 1 for rejected texts), `safest` → `0|1` (every stored set is Safe)
 
 `<source>` is `none` | `tags <k> <v> … ;` | `expr <ast>`, with the AST in prefix form:
@@ -101,6 +105,7 @@ def showIdsD (seen : List Nat) (l : List Nat) : String :=
   if all.isEmpty then "ok" else "ok " ++ " ".intercalate all
 
 def gocStep (d : DSt) (raw : Bytes) (create saveOK : Bool) : DSt × String :=
+  if Logrange.TIndexGuard.codeGuard && Logrange.TIndexGuard.guardRejects d.st.base raw then (d, "unwritable") else
   let (s', r) := getOrCreateS codeFacts d.st raw create saveOK
   match r with
   | .saveFailed => ({ d with st := s' }, "savefailed")
@@ -135,6 +140,7 @@ def step (d : DSt) (toks : List String) : DSt × String :=
        (d, s!"model={b01 mo} spec={b01 (evalTagsRef so sc m)}")
      | none => (d, "bad-source"))
   | ["like", p, n] => (d, match Logrange.PathMatch.pathMatch (unhex p) (unhex n) with | some true => "1" | some false => "0" | none => "bad")
+  | ["reparses", t] => (d, match parse (unhex t) with | some m => (if reparses m then "1" else "0") | none => "rej")
   | ["safe", t] => (d, match parse (unhex t) with | some m => (if safePinned m then "1" else "0") | none => "1")
   | ["safest"] => (d, if s.tmap.all (fun e => safePinned e.2.tags) then "1" else "0")
   | _ => (d, "bad-op")
